@@ -812,11 +812,8 @@ func (c *Enc) modifiesHeaps(pat string) []string {
 	pat = strings.TrimSpace(pat)
 	if strings.HasPrefix(pat, "ghost ") {
 		name := strings.TrimSpace(strings.TrimPrefix(pat, "ghost "))
-		if g, ok := c.eng.cf.Ghosts[name]; ok {
-			ty, err := c.eng.resolveType(g.Type)
-			if err == nil {
-				return []string{c.cellVar("G_"+name, ty)}
-			}
+		if cell, ok := c.ghostCell(name); ok {
+			return []string{cell}
 		}
 		c.errorf("modifies: unknown ghost %s", name)
 		return nil
